@@ -59,6 +59,11 @@ class C17(SmallSuite):
         N = rng.choice([1, 1, 2, 2, 3, 4, 5])
         m = rng.randint(1, min(20, 50 // N)) if rng.random() < 0.7 else rng.choice([10, 50 // N])
         lower, upper = objectives.gen_box(rng, N)
+        ctor_type = None
+        if rng.random() < 0.12:
+            # whole-number bounds written as python ints / an int array (the repo's own tests construct Evolvent([-1, -1], [1, 1], ...))
+            lower, upper = objectives.gen_int_box(rng, N)
+            ctor_type = rng.choice(["int_list", "int_array"])
         n_ops = rng.randint(4, 40)
         ops = []
         box = (list(lower), list(upper))
@@ -126,8 +131,11 @@ class C17(SmallSuite):
                 ops.append({"op": "scribble", "ret": rng.randrange(n_ret), "value": _r(rng, -1e3, 1e3)})
             else:
                 ops.append({"op": "scribble_bounds", "which": rng.randrange(n_bounds), "value": _r(rng, -1e3, 1e3)})
-        return {"property": self.prop, "suite": "evolvent", "format": 1, "run_seed": run_seed, "N": N, "m": m,
+        plan = {"property": self.prop, "suite": "evolvent", "format": 1, "run_seed": run_seed, "N": N, "m": m,
                 "lower": lower, "upper": upper, "ops": ops}
+        if ctor_type:
+            plan["ctor_bounds_type"] = ctor_type
+        return plan
 
     def check(self, plan):
         rep = Report()
@@ -139,7 +147,13 @@ class C17(SmallSuite):
             rep.violations.append(core.Violation(P, clause, msg, "evolvent"))
         lo0 = np.array(plan["lower"], dtype=np.double)
         hi0 = np.array(plan["upper"], dtype=np.double)
-        bounds_args = [(lo0, hi0)]
+        ct = plan.get("ctor_bounds_type")
+        if ct == "int_list":
+            lo0, hi0 = [int(v) for v in plan["lower"]], [int(v) for v in plan["upper"]]
+        elif ct == "int_array":
+            lo0, hi0 = np.array([int(v) for v in plan["lower"]]), np.array([int(v) for v in plan["upper"]])
+        rep.probes["int_typed_constructor_bounds"] += int(bool(ct))
+        bounds_args = [(lo0, hi0)] if not isinstance(lo0, list) else [(np.array(lo0, dtype=np.double), np.array(hi0, dtype=np.double))]
         cur = (list(plan["lower"]), list(plan["upper"]))
         try:
             ev = Evolvent(lo0, hi0, N, m)
